@@ -34,13 +34,18 @@ SeenAll(s, args) == [i \in 1..Len(args) |-> Seen(s, args, i)]
 MustCarry(s, args) == UNION {MarksIn(args[i]) : i \in {j \in 1..Len(args) : ~ParamOf(s, j).am}}
 UnknownStops(s, args) == \E i \in 1..Len(args) : args[i].st = "unk" /\ ~ParamOf(s, i).au
 
+\* derived functions: wrap = "redesc" (WithNewDescriptions) and "proxy" (Proxy) keep the whole contract; "unpred"
+\* (Unpredictable) keeps arguments and type checking but stands in an implementation that answers unknown
+Wrap(s) == IF Has(s, "wrap") THEN s.wrap ELSE "none"
 \* the type the type-check callback answers, and what the implementation returns
 TcbType(s) == IF s.tcb = "okDyn" THEN TDyn ELSE TStr
-ImplValue(s) == CASE s.icb = "conf" -> StrV(<<"r">>)
+ImplValue(s) == CASE Wrap(s) = "unpred" -> Unk(TcbType(s), NoRf)
+                  [] s.icb = "conf" -> StrV(<<"r">>)
                   [] s.icb = "nonconf" -> IF s.tcb = "okDyn" THEN StrV(<<"r">>) ELSE NumV(4)
                   [] s.icb = "unknown" -> Unk(TStr, NoRf)
                   [] OTHER -> StrV(<<"r">>)
 ImplConforms(s) == Conforms(ImplValue(s).ty, TcbType(s))
+Icb(s) == IF Wrap(s) = "unpred" THEN "unknown" ELSE s.icb
 
 \* the contract an argument list handed to the implementation must satisfy
 ArgOKForImpl(p, v) ==
@@ -98,8 +103,9 @@ CallFailedRules(e) ==
                    \cup (IF out.ok /\ ~(MustCarry(s, args) \subseteq MarksIn(out.val)) THEN {"C10.ShortCircuitCarriesMarks"} ELSE {})
                    \cup (IF out.ok /\ ~Refined(s, out.val) THEN {"C10.RefineApplied"} ELSE {})
                 ELSE
-                   (IF ImplCbs(e) = {} THEN {"C10.ImplRuns"} ELSE {})
-                   \cup (IF s.icb \in {"err", "panic"} THEN (IF out.ok THEN {"C10.ImplErrorPropagates"} ELSE {})
+                   (IF Wrap(s) = "unpred" THEN (IF ImplCbs(e) # {} THEN {"C10.UnpredictableSkipsImpl"} ELSE {})
+                    ELSE IF ImplCbs(e) = {} THEN {"C10.ImplRuns"} ELSE {})
+                   \cup (IF Icb(s) \in {"err", "panic"} THEN (IF out.ok THEN {"C10.ImplErrorPropagates"} ELSE {})
                          ELSE IF ~ImplConforms(s) THEN (IF out.ok THEN {"C10.NeverReturnsNonConforming"} ELSE {})
                          ELSE (IF out.ok /\ UnmarkDeep(out.val).ty = ImplValue(s).ty
                                   /\ (ImplValue(s).st = "k" => UnmarkDeep(out.val) = ImplValue(s))
